@@ -20,6 +20,10 @@ Definition left_orth (c : core3 R) : Prop :=
     sum_n (nn c) (fun i => mmul (r0 c) (adj (slice_of c i)) (slice_of c i) p q) = delta p q.
 
 Fixpoint endrank (r : nat) (x : tt R) : nat := match x with [] => r | c :: t => endrank (r1 c) t end.
+(* consecutive cores agree on the shared rank, starting from r (no condition on the last rank: prefixes of a train qualify) *)
+Fixpoint linked (r : nat) (x : tt R) : Prop := match x with [] => True | c :: t => r0 c = r /\ linked (r1 c) t end.
+Lemma chained_linked (x : tt R) : forall r, chained r x -> linked r x.
+Proof. induction x as [|c t IH]; intros r H; cbn [chained linked] in *; [exact I|]. destruct H as [H1 H2]. split; auto. Qed.
 Definition gram (r : nat) (x : tt R) (p q : nat) : R :=
   sum_idx (shape x) (fun idx => mmul r (adj (chainM (slices x idx))) (chainM (slices x idx)) p q).
 
@@ -29,7 +33,7 @@ Proof. unfold adj, mmul. rewrite sum_n_conj. apply sum_n_ext. intros l _. rewrit
 Lemma chain_cons_mmul (c : core3 R) t i it a p : chainM (slices (c :: t) (i :: it)) a p = mmul (r1 c) (slice_of c i) (chainM (slices t it)) a p.
 Proof. reflexivity. Qed.
 
-Theorem gram_left_orth : forall (x : tt R) r, chained r x -> Forall left_orth x ->
+Theorem gram_left_orth : forall (x : tt R) r, linked r x -> Forall left_orth x ->
   forall p q, (p < endrank r x)%nat -> (q < endrank r x)%nat -> gram r x p q = delta p q.
 Proof.
   induction x as [|c t IH]; intros r Hch Hall p q Hp Hq.
@@ -70,7 +74,7 @@ Proof.
 Qed.
 
 (* for a whole prefix starting at the boundary rank 1: the interface vectors are orthonormal *)
-Corollary interface_orthonormal (x : tt R) p q : chained 1 x -> Forall left_orth x -> (p < endrank 1 x)%nat -> (q < endrank 1 x)%nat ->
+Corollary interface_orthonormal (x : tt R) p q : linked 1 x -> Forall left_orth x -> (p < endrank 1 x)%nat -> (q < endrank 1 x)%nat ->
   sum_idx (shape x) (fun idx => rconj (chainM (slices x idx) 0%nat p) * chainM (slices x idx) 0%nat q) = delta p q.
 Proof.
   intros Hch Hall Hp Hq. rewrite <- (gram_left_orth x 1 Hch Hall p q Hp Hq). unfold gram.
@@ -78,7 +82,7 @@ Proof.
 Qed.
 
 (* the interface matrix is an isometry: <L v, L w> = <v, w> *)
-Lemma interface_isometry (x : tt R) (v w : nat -> R) : chained 1 x -> Forall left_orth x ->
+Lemma interface_isometry (x : tt R) (v w : nat -> R) : linked 1 x -> Forall left_orth x ->
   sum_idx (shape x) (fun idx => sum_n (endrank 1 x) (fun p => chainM (slices x idx) 0%nat p * v p) *
                                 rconj (sum_n (endrank 1 x) (fun q => chainM (slices x idx) 0%nat q * w q)))
   = sum_n (endrank 1 x) (fun p => v p * rconj (w p)).
@@ -109,7 +113,7 @@ Qed.
 
 (* the squared norm of a train whose cores but the last are left-orthogonal is the squared norm of its last core:
    what norm() returns after its QR sweep, and why the spectrum of the last core of an orthogonalised train is the spectrum of the tensor *)
-Theorem norm2_last_core (pre : tt R) (c : core3 R) : chained 1 pre -> Forall left_orth pre -> r1 c = 1%nat ->
+Theorem norm2_last_core (pre : tt R) (c : core3 R) : linked 1 pre -> Forall left_orth pre -> r1 c = 1%nat ->
   sum_idx (shape (pre ++ [c])) (fun idx => entry (pre ++ [c]) idx * rconj (entry (pre ++ [c]) idx))
   = sum_n (nn c) (fun i => sum_n (endrank 1 pre) (fun p => e3 c p i 0%nat * rconj (e3 c p i 0%nat))).
 Proof.
@@ -125,3 +129,115 @@ Proof.
 Qed.
 
 End OrthP.
+
+(* ---- the mirror image: trains read from the right (rl_orthogonal) ---- *)
+Section Mirror.
+Context {R : Type} {RO : RingOps R} {RL : RingLaws R}.
+Add Ring Rr16m : Rth.
+Open Scope R_scope.
+Arguments chainM : simpl never.
+
+Definition flip_core (c : core3 R) : core3 R := mk3 (r1 c) (nn c) (r0 c) (fun p i q => e3 c q i p).
+Definition rev_tt (x : tt R) : tt R := map flip_core (rev x).
+(* the right unfolding r0 x (n*r1) of the core has orthonormal rows (up to conjugation): the flipped core is left-orthogonal *)
+Definition right_orth (c : core3 R) : Prop := left_orth (flip_core c).
+
+Lemma chainM_snoc (l : list (sl R)) : forall r k A i j, (i < r)%nat -> (j < k)%nat ->
+  chainM (l ++ [(k, A)]) i j = sum_n (lastk r l) (fun m => chainM l i m * A m j).
+Proof.
+  intros r k A i j Hi Hj. rewrite (chainM_app l [(k, A)] r i j Hi). unfold mmul. apply sum_n_ext. intros m _.
+  rewrite chainM_single by exact Hj. reflexivity.
+Qed.
+Lemma lastk_app_single (l : list (sl R)) : forall s k A, lastk s (l ++ [(k, A)]) = k.
+Proof. induction l as [|[k' B] l IH]; intros s k A; cbn [app lastk]; [reflexivity|apply IH]. Qed.
+Lemma lastk_rev (y : tt R) : forall jd r0_ s, length jd = length y -> linked r0_ y ->
+  lastk s (slices (rev_tt y) (rev jd)) = match y with [] => s | _ => r0_ end.
+Proof.
+  destruct y as [|a y]; intros jd r0_ s Hj Hc; destruct jd as [|j jt]; simpl in Hj; try discriminate; [reflexivity|].
+  destruct Hc as [Ha Hc]. unfold rev_tt. cbn [rev]. rewrite map_app. cbn [map]. fold (rev_tt y).
+  rewrite slices_snoc by (unfold rev_tt; rewrite map_length, !rev_length; lia).
+  rewrite lastk_app_single. cbn [flip_core r1]. exact Ha.
+Qed.
+
+(* reading the train backwards transposes every partial product *)
+Lemma rev_chain : forall (x : tt R) idx r p q, length idx = length x -> linked r x -> (p < r)%nat -> (q < endrank r x)%nat ->
+  chainM (slices (rev_tt x) (rev idx)) q p = chainM (slices x idx) p q.
+Proof.
+  induction x as [|c t IH]; intros idx r p q Hl Hch Hp Hq; destruct idx as [|i it]; simpl in Hl; try discriminate.
+  - cbn [rev_tt rev map slices endrank] in *. change (chainM (@nil (sl R))) with (@Id R RO). unfold Id, delta. rewrite Nat.eqb_sym. reflexivity.
+  - destruct Hch as [Hr Hch]. cbn [endrank] in Hq.
+    unfold rev_tt. cbn [rev]. rewrite map_app. cbn [map]. fold (rev_tt t).
+    assert (Hlr : length (rev it) = length (rev_tt t)) by (unfold rev_tt; rewrite map_length, !rev_length; lia).
+    rewrite slices_snoc by exact Hlr.
+    rewrite (chainM_snoc _ (endrank (r1 c) t)); [| exact Hq | cbn [flip_core r1]; lia ].
+    cbn [flip_core r1 e3].
+    assert (Hlk : lastk (endrank (r1 c) t) (slices (rev_tt t) (rev it)) = r1 c).
+    { rewrite (lastk_rev t it (r1 c)) by (auto; lia). destruct t as [|c' t']; [reflexivity|reflexivity]. }
+    rewrite Hlk. cbn [slices]. rewrite chainM_cons. cbn [r1]. apply sum_n_ext. intros m Hm.
+    rewrite (IH it (r1 c) m q) by (auto; lia). ring.
+Qed.
+
+Lemma chained_endrank (x : tt R) : forall r, chained r x -> endrank r x = 1%nat.
+Proof. induction x as [|c t IH]; intros r H; cbn [chained endrank] in *; [exact H|]. destruct H as [_ H]. apply IH. exact H. Qed.
+
+Theorem entry_rev (x : tt R) idx : wf x -> length idx = length x -> entry (rev_tt x) (rev idx) = entry x idx.
+Proof.
+  intros [_ Hch] Hl. unfold entry. apply (rev_chain x idx 1%nat 0%nat 0%nat Hl (chained_linked x 1 Hch)); [lia|].
+  rewrite (chained_endrank x 1 Hch). lia.
+Qed.
+
+(* summing over a box in reversed order of the modes *)
+Lemma sum_idx_snoc (ns : list nat) : forall n (f : list nat -> R),
+  sum_idx (ns ++ [n]) f = sum_n n (fun j => sum_idx ns (fun is_ => f (is_ ++ [j]))).
+Proof. intros n f. rewrite sum_idx_app. cbn [sum_idx]. rewrite sum_idx_sum_n_swap. reflexivity. Qed.
+Lemma sum_idx_rev (ns : list nat) : forall (f : list nat -> R), sum_idx (rev ns) (fun idx => f (rev idx)) = sum_idx ns f.
+Proof.
+  induction ns as [|n t IH]; intros f; cbn [rev sum_idx]; [reflexivity|].
+  rewrite sum_idx_snoc. apply sum_n_ext. intros j _.
+  rewrite <- (IH (fun js => f (j :: js))). apply sum_idx_ext. intros is_ _ _.
+  rewrite rev_app_distr. reflexivity.
+Qed.
+Lemma rev_tt_shape (x : tt R) : shape (rev_tt x) = rev (shape x).
+Proof. unfold rev_tt, shape. rewrite map_map, map_rev. reflexivity. Qed.
+
+Lemma linked_app (l : tt R) : forall s (l2 : tt R), linked s l -> linked (endrank s l) l2 -> linked s (l ++ l2).
+Proof.
+  induction l as [|b l IH]; intros s l2 H1 H2; cbn [app linked endrank] in *; [exact H2|].
+  destruct H1 as [Hb H1]. split; [exact Hb|]. apply IH; assumption.
+Qed.
+Lemma endrank_app (l : tt R) : forall s (l2 : tt R), endrank s (l ++ l2) = endrank (endrank s l) l2.
+Proof. induction l as [|b l IH]; intros s l2; cbn [app endrank]; [reflexivity|apply IH]. Qed.
+(* the reversed train is linked from the end rank of the original back to its first rank *)
+Lemma linked_rev (x : tt R) : forall r, linked r x -> linked (endrank r x) (rev_tt x) /\ endrank (endrank r x) (rev_tt x) = r.
+Proof.
+  induction x as [|c t IH]; intros r H; cbn [linked endrank] in *; [split; [exact I|reflexivity]|].
+  destruct H as [Hr H]. destruct (IH (r1 c) H) as [H1 H2].
+  unfold rev_tt. cbn [rev]. rewrite map_app. cbn [map]. fold (rev_tt t). split.
+  - apply linked_app; [exact H1|]. rewrite H2. cbn [linked flip_core r0]. split; [reflexivity|exact I].
+  - rewrite endrank_app. cbn [endrank flip_core r1]. exact Hr.
+Qed.
+
+(* the squared norm of a train whose cores but the FIRST are right-orthogonal (what rl_orthogonal leaves) is the squared norm of its first core *)
+Theorem norm2_first_core (c : core3 R) (post : tt R) : r0 c = 1%nat -> chained (r1 c) post -> Forall right_orth post ->
+  sum_idx (shape (c :: post)) (fun idx => entry (c :: post) idx * rconj (entry (c :: post) idx))
+  = sum_n (nn c) (fun i => sum_n (r1 c) (fun p => e3 c 0%nat i p * rconj (e3 c 0%nat i p))).
+Proof.
+  intros H0 Hch Hall.
+  assert (Hwf : wf (c :: post)) by (split; [discriminate|split; [exact H0|exact Hch]]).
+  rewrite <- (sum_idx_rev (shape (c :: post))).
+  rewrite (sum_idx_ext (rev (shape (c :: post))) _ (fun idx => entry (rev_tt (c :: post)) idx * rconj (entry (rev_tt (c :: post)) idx))).
+  2:{ intros idx Hl _. rewrite rev_length in Hl. unfold shape in Hl. rewrite map_length in Hl.
+      rewrite <- (entry_rev (c :: post) (rev idx)) by (auto; rewrite rev_length; exact Hl). rewrite rev_involutive. reflexivity. }
+  rewrite <- rev_tt_shape.
+  unfold rev_tt. cbn [rev]. rewrite map_app. cbn [map]. fold (rev_tt post).
+  destruct (linked_rev post (r1 c) (chained_linked post (r1 c) Hch)) as [Hl He].
+  rewrite (chained_endrank post (r1 c) Hch) in Hl, He.
+  rewrite (norm2_last_core (rev_tt post) (flip_core c)).
+  - cbn [flip_core nn e3]. rewrite He. reflexivity.
+  - exact Hl.
+  - unfold rev_tt. apply Forall_forall. intros a Ha. apply in_map_iff in Ha. destruct Ha as [b [<- Hb]].
+    apply in_rev in Hb. rewrite Forall_forall in Hall. apply Hall. exact Hb.
+  - cbn [flip_core r1]. exact H0.
+Qed.
+
+End Mirror.
